@@ -1,5 +1,6 @@
 """Shared front part of every property check: constants, lint, proofs, driver, harness."""
 import os
+import json
 import vlib
 from vlib import log
 
@@ -54,3 +55,85 @@ def proof_coverage(v, st, prop, extra_tb=()):
         theorems=pr.get("theorems", []),
         print_assumptions={k: (v2 or ["Closed under the global context"]) for k, v2 in pr["axioms"].items()},
     ))
+
+
+import json
+
+
+def correspondence(v, st, prop, cmd, model_kind, tier, seed, replay=None, profiles=("release", "checked"),
+                   extra=(), model_desc="", impl_desc="", kind_for=None, timeout=3000):
+    """Generic differential run: harness (per profile) writes cases.txt / impl.txt / specfail.txt / stats.json,
+    the extracted model replays cases.txt. Returns dict(stats, samples, evals, distinct, dis, spec_fail[(tag,line,outdir)])."""
+    res = dict(stats={}, samples=[], evals=0, distinct=0, dis=0, spec_fail=[])
+    if not st["harness_ok"]:
+        return res
+    runs = []
+    cdir = os.path.join(vlib.VERIF, "corpus", prop)
+    for tag in profiles:
+        if replay:
+            runs.append((tag, "replay", ["--replay", replay]))
+        else:
+            if os.path.isdir(cdir):
+                for f in sorted(os.listdir(cdir)):
+                    if f.startswith(cmd + "-") or f.startswith("all-"):
+                        runs.append((tag, "corpus-" + f, ["--replay", os.path.join(cdir, f)]))
+            runs.append((tag, "gen", []))
+    for tag, name, rextra in runs:
+        outdir = os.path.join(vlib.BUILD, "run", "%s-%s-%s" % (cmd, name.replace("/", "_"), tag))
+        rc, out = vlib.run_harness(cmd, outdir, seed, tier, tag, list(rextra) + list(extra), timeout=timeout)
+        if rc != 0:
+            st["broken"].append("harness %s (%s,%s) exited %d: %s" % (cmd, name, tag, rc, out[-300:]))
+            continue
+        s = json.load(open(os.path.join(outdir, "stats.json")))
+        if name == "gen" or replay:
+            for k, val in s["stats"].items():
+                res["stats"][tag + "." + k] = val
+            res["samples"] += s["samples"][:3]
+            if tag == profiles[0]:
+                res["distinct"] += s["stats"].get("distinct_nontrivial", 0)
+        res["evals"] += sum(val for k, val in s["stats"].items() if k in ("pairs", "hostile_pairs", "cases", "histories"))
+        sf = os.path.join(outdir, "specfail.txt")
+        if os.path.exists(sf):
+            res["spec_fail"] += [(tag, l, outdir) for l in open(sf).read().split("\n") if l]
+        if st["driver_ok"] and os.path.exists(os.path.join(outdir, "cases.txt")):
+            mk = kind_for(tag) if kind_for else model_kind
+            ok, msg = vlib.run_model_sharded(mk, os.path.join(outdir, "cases.txt"), os.path.join(outdir, "model.txt"))
+            if not ok:
+                st["broken"].append(msg)
+                continue
+            bad = vlib.diff_lines(os.path.join(outdir, "model.txt"), os.path.join(outdir, "impl.txt"))
+            if bad:
+                res["dis"] += len(bad)
+                cases = open(os.path.join(outdir, "cases.txt")).read().split("\n")
+                i = bad[0][0]
+                st["broken"].append("correspondence %s vs %s (%s profile, %s) differs on case line %d: model `%s` impl `%s`" % (
+                    model_desc, impl_desc, tag, name, i, bad[0][1][:120], bad[0][2][:120]))
+                st.setdefault("corr_replay", cases[i] if 0 <= i < len(cases) else "")
+    return res
+
+
+def case_line(outdir, cid):
+    with open(os.path.join(outdir, "cases.txt")) as f:
+        for c in f:
+            if c.split(" ", 1)[0] == cid:
+                return c.rstrip("\n")
+    return ""
+
+
+def verdict(v, st, prop, res, known_match=None, max_report=3):
+    """spec failures -> VIOLATION with replay (or KNOWN-FINDING); else broken proof/correspondence -> no-failing-input-found."""
+    reported = 0
+    for tag, line, outdir in res["spec_fail"]:
+        cid = line.split()[0]
+        case = case_line(outdir, cid)
+        k = known_match(line, case) if known_match else None
+        if k:
+            v.known(k)
+            continue
+        if reported < max_report:
+            v.violation("specfail-%s-%s.txt" % (tag, cid), "# %s: property oracle failed on the implementation (profile %s): %s\n%s" % (prop, tag, line, case),
+                        "property fails on the implementation: " + line[:240])
+            reported += 1
+    if reported == 0 and st["broken"]:
+        body = "# %s: no failing input found; what no longer checks:\n" % prop + "\n".join("# " + b.replace("\n", " ")[:600] for b in st["broken"]) + "\n" + st.get("corr_replay", "")
+        v.violation("unproved.txt", body, "; ".join(st["broken"])[:500], found_input=False)
